@@ -98,7 +98,22 @@ func faultAtom(t *rapid.T) (ast.Expr, string) {
 func inContext(t *rapid.T, f ast.Expr) (ast.Expr, string) {
 	a := ast.F("a")
 	ml := func(es ...ast.Expr) *ast.Chain { return &ast.Chain{Head: ast.Head{Kind: ast.HMultiList, Items: es}} }
-	switch rapid.IntRange(0, 17).Draw(t, "context") {
+	switch rapid.IntRange(0, 19).Draw(t, "context") {
+	case 18, 19:
+		// a fault that depends on the data: the key expression (or mapped
+		// expression) succeeds for the first record and reaches the faulty
+		// atom only for a later one
+		key := ast.Bin("||", ast.Bin("&&", ast.F("ok"), ast.F(gen.Pick(t, "okfield", []string{"s", "n"}))), ast.Paren(f))
+		fn := gen.Pick(t, "datafn", []string{"sort_by", "min_by", "max_by", "group_by", "map", "filter", "project"})
+		switch fn {
+		case "map":
+			return ast.Call("map", ast.Ref(key), ast.A(ast.F("recs"))), "data-dependent-map"
+		case "filter":
+			return ast.F("recs").With(ast.Step{Kind: ast.SFilter, Cond: key}), "data-dependent-filter"
+		case "project":
+			return ast.F("recs").With(ast.Step{Kind: ast.SListStar}, ast.Step{Kind: ast.SMultiList, Items: []ast.Expr{key}}), "data-dependent-projection"
+		}
+		return ast.Call(fn, ast.A(ast.F("recs")), ast.Ref(key)), "data-dependent-" + fn
 	case 14: // selectors continuing a slice of a string ("b" is a string in the first document)
 		return ast.F("b").With(ast.Step{Kind: ast.SSlice, Start: ast.I64(0), Stop: ast.I64(1)}, ast.Step{Kind: ast.SMultiList, Items: []ast.Expr{f}}), "after-string-slice"
 	case 15:
@@ -140,7 +155,7 @@ func inContext(t *rapid.T, f ast.Expr) (ast.Expr, string) {
 	return ast.F("o").With(ast.Step{Kind: ast.SStar}, ast.Step{Kind: ast.SMultiList, Items: []ast.Expr{f}}), "object-projection"
 }
 
-var c08Docs = []string{`{"a":[{"k":1},{"k":2}],"b":"x","o":{"p":1,"q":2}}`, `{"a":[],"b":null,"o":{}}`, `null`, `{"a":"str","o":[1]}`}
+var c08Docs = []string{`{"a":[{"k":1},{"k":2}],"b":"x","o":{"p":1,"q":2},"recs":[{"ok":true,"s":"a","n":1},{"ok":false,"s":"b","n":2},{"ok":true,"s":"c","n":3}]}`, `{"a":[],"b":null,"o":{},"recs":[{"ok":true,"s":"a","n":1}]}`, `null`, `{"a":"str","o":[1]}`}
 
 var allCats = []model.Cat{model.Syntax, model.Arity, model.UnknownFn, model.InvType, model.InvValue, model.UndefVar, model.NaN, model.EvalFailed}
 
